@@ -12,6 +12,7 @@ import (
 	"encoding/json"
 	"fmt"
 	"hash"
+	"io"
 	"os"
 	"time"
 )
@@ -60,6 +61,11 @@ func Set(r *Replay) {
 	params = r.Params
 	Reached = map[string]bool{}
 	RecHashes = nil
+	ZCalls = nil
+	zMemo = nil
+	ZHeaderCheck = false
+	ZMinIn = 0
+	ZNoFail = false
 }
 
 func next() uint64 {
@@ -235,3 +241,160 @@ func FireTimers(includeStopped bool) int {
 
 // PendingTimers is the number of armed, unfired timers (engine only; natively -1).
 func PendingTimers() int { return -1 }
+
+// ---------- zlib stubs ----------
+
+// ZCall records one inflate call of the nondeterministic transducer.
+type ZCall struct {
+	Consumed  int    // source bytes consumed
+	Out       []byte // bytes produced
+	FailEnd   bool   // the stream ends with an error instead of io.EOF
+	Short     bool   // the source ended before Consumed bytes were available
+	BadHeader bool   // ZHeaderCheck: the stream does not start with a zlib header
+	Repeat    bool   // repeats an earlier inflation from the same source offset
+	hdr0      byte
+	started   bool
+	pos       int
+}
+
+// ZCalls lists every transducer call since the last Set/Load/ZReset.
+var ZCalls []*ZCall
+
+// ZMaxIn / ZMaxOut bound the transducer (set by the harness).
+var ZMaxIn, ZMaxOut int
+
+// ZMinIn is the least number of source bytes consumed; ZNoFail removes the
+// "corrupt at the end" behaviour (harnesses that study something else than
+// the handling of inflater errors, which has its own harness).
+var ZMinIn int
+var ZNoFail bool
+
+// ZHeaderCheck makes the transducer honour the part of the zlib contract that
+// every inflater checks first: the stream starts with a two-byte header whose
+// method nibble is 8 and whose 16-bit value is a multiple of 31 (RFC 1950).
+// Without it any bytes may "inflate".
+var ZHeaderCheck bool
+
+// zMemo makes inflation a function of the position it starts at (a real
+// inflater is deterministic): when the source can report its offset, a second
+// inflation from the same offset repeats the first one.
+var zMemo map[int64]*ZCall
+
+type zError struct{}
+
+func (zError) Error() string { return "verifrt: zlib stub: corrupt stream" }
+
+// ErrZlib is the error the stub inflater reports for a corrupt stream.
+var ErrZlib error = zError{}
+
+// ZTransducer is an over-approximation of a zlib inflater: it consumes a
+// solver-chosen number of source bytes (<= ZMaxIn), produces solver-chosen
+// bytes of solver-chosen length (<= ZMaxOut) and then ends with io.EOF or,
+// solver's choice, with an error. A real inflater's output is a function of
+// the bytes it consumed; here it is arbitrary, so every behaviour of a real
+// inflater on any (corrupt or valid) stream is included.
+type ZTransducer struct {
+	src  io.Reader
+	cur  *ZCall
+	last byte
+}
+
+func (z *ZTransducer) Reset(r io.Reader, dict []byte) error {
+	z.src = r
+	z.cur = nil
+	return nil
+}
+
+func (z *ZTransducer) start() error {
+	c := &ZCall{started: true}
+	off := int64(-1)
+	if sk, ok := z.src.(io.Seeker); ok {
+		if o, err := sk.Seek(0, io.SeekCurrent); err == nil {
+			off = o
+		}
+	}
+	if prev, ok := zMemo[off]; ok && off >= 0 {
+		c.Consumed, c.Out, c.FailEnd, c.BadHeader = prev.Consumed, prev.Out, prev.FailEnd, prev.BadHeader
+		c.Repeat = true
+	} else {
+		c.Consumed = Range(ZMinIn, ZMaxIn)
+		n := Range(0, ZMaxOut)
+		c.Out = NondetBytes(n)
+		if !ZNoFail {
+			c.FailEnd = NondetBool()
+		}
+		if off >= 0 {
+			if zMemo == nil {
+				zMemo = map[int64]*ZCall{}
+			}
+			zMemo[off] = c
+		}
+	}
+	z.cur = c
+	ZCalls = append(ZCalls, c)
+	if ZHeaderCheck {
+		if c.Consumed < 2 {
+			c.BadHeader = true
+		}
+	}
+	br, _ := z.src.(io.ByteReader)
+	var one [1]byte
+	for i := 0; i < c.Consumed; i++ {
+		var err error
+		if br != nil {
+			z.last, err = br.ReadByte()
+		} else {
+			_, err = io.ReadFull(z.src, one[:])
+		}
+		if err != nil {
+			c.Short = true
+			return io.ErrUnexpectedEOF
+		}
+		if ZHeaderCheck && i < 2 {
+			var b byte
+			if br != nil {
+				b = z.last
+			} else {
+				b = one[0]
+			}
+			if i == 0 {
+				c.hdr0 = b
+			} else if c.hdr0&0x0f != 8 || (uint(c.hdr0)<<8|uint(b))%31 != 0 {
+				c.BadHeader = true
+			}
+		}
+	}
+	if c.BadHeader {
+		return ErrZlib
+	}
+	return nil
+}
+
+func (z *ZTransducer) Read(p []byte) (int, error) {
+	if z.src == nil {
+		return 0, ErrZlib
+	}
+	if z.cur == nil {
+		if err := z.start(); err != nil {
+			return 0, err
+		}
+	}
+	c := z.cur
+	if c.Short {
+		return 0, io.ErrUnexpectedEOF
+	}
+	if c.BadHeader {
+		return 0, ErrZlib
+	}
+	if c.pos >= len(c.Out) {
+		if c.FailEnd {
+			return 0, ErrZlib
+		}
+		return 0, io.EOF
+	}
+	n := copy(p, c.Out[c.pos:])
+	c.pos += n
+	return n, nil
+}
+
+func (z *ZTransducer) Close() error { return nil }
